@@ -178,7 +178,7 @@ func runKillAfterNewTerm(o *hx.Out, leader bool, kind int) {
 		h.doClientWrite(1000)
 		h.doLeaderSync()
 		h.doNewTerm(4)
-		h.doKill(kind)
+		h.doKill(kind, true)
 		h.doClientWrite(1001) // must be refused: fenced
 		h.doBecomeLeader(2)   // a late BecomeLeader of the old term
 		h.doClientWrite(1002)
@@ -194,7 +194,7 @@ func runKillAfterNewTerm(o *hx.Out, leader bool, kind int) {
 		h.doSyncEnd(1)
 		h.settle()
 		h.doNewTerm(4)
-		h.doKill(kind)
+		h.doKill(kind, true)
 		// the deposed leader of term 2 re-attaches and goes on
 		h.doReplicateOpen(2, 2)
 		h.settle()
@@ -236,7 +236,7 @@ func runAppendDuringFlush(o *hx.Out) {
 	}
 	<-seDone
 	h.settle()
-	h.doKill(1)
+	h.doKill(1, true)
 	finishSpec(o, h, "append-during-flush-then-kill", mineFor(*focus))
 }
 
@@ -270,7 +270,8 @@ func runGeneratedKills(o *hx.Out, r *hx.Rng, steps int) {
 		}
 		if answered && kills < 4 && r.Chance(40) {
 			kills++
-			h.doKill(r.Intn(2))
+			h.doKill(r.Intn(2), r.Bool())
+			g.staleFirstRequest()
 			// the generator's bookkeeping of streams is gone with the node
 			g.nextSid += 100
 			h.settle()
